@@ -74,10 +74,16 @@ func runC03(c map[string]interface{}) []Event {
 			e["oplen"] = int(math.Round(op.Length(l)))
 			ml := geom.MultiLineString{l, l[:2]} // the path and its first segment
 			e["mllen"] = int(math.Round(ml.Length()))
+			fin := func(v float64) int { // a non-finite distance has no integer form
+				if math.IsNaN(v) || math.IsInf(v, 0) || math.Abs(v) > 1e9 {
+					return codeBad
+				}
+				return int(math.Round(v))
+			}
 			d := l.Distance(q)
-			e["d2K"] = int(math.Round(d * d * c03K))
+			e["d2K"] = fin(d * d * c03K)
 			md := ml.Distance(q)
-			e["mld2K"] = int(math.Round(md * md * c03K))
+			e["mld2K"] = fin(md * md * c03K)
 		})
 		return []Event{e}
 	case "near":
